@@ -315,6 +315,37 @@ def op_matmul(m, M, rng, S):
             f.append("MATMUL: an operand's cells changed")
         else:
             f += agree(X.remove_unused_nodes(), dict(model_of(Y), sub={}, bnd={}))
+    # SPLIT of an operand of @ (its point array holds the other mesh's points, which none of its cells uses): same measure, no degenerate cell
+    for X, Y in ((A, m), (B, o)):
+        for meth, kw in (("to_meshtri", {}), ("to_meshtri", dict(style="x")), ("to_meshtet", {})):
+            if not hasattr(X, meth) or (kw and kind(Y) != "quad"):
+                continue
+            try:
+                Tm = getattr(X, meth)(**kw)
+                ms = measures(Tm.p, Tm.t, kind(Tm))
+                want = float(measures(Y.p, Y.t, kind(Y)).sum())
+                if abs(float(ms.sum()) - want) > 1e-10 * max(1., want) or float(ms.min()) <= 0:
+                    f.append("MATMUL>SPLIT: %s(%s) of an operand of @ has measure %.6g (expected %.6g), smallest cell %.3g" % (meth, kw, float(ms.sum()), want, float(ms.min())))
+            except NotImplementedError:
+                pass
+            except Exception as e:
+                f.append("MATMUL>SPLIT: %s(%s) raised %s: %s" % (meth, kw, type(e).__name__, str(e)[:100]))
+    # a LIST of several meshes: every listed mesh keeps its own cells (its points follow those of all the preceding meshes)
+    sh = np.zeros(len(lo))
+    sh[0] = 1.
+    o2 = type(m)(m.p + 2 * (hi[0] - lo[0] + 1.) * sh[:, None], m.t)
+    ops = [m, o, o2, o.translated(tuple(3 * (hi[0] - lo[0] + 1.) * sh))]
+    try:
+        res = ops[0] @ ops[1:]
+        if len(res) != len(ops):
+            f.append("MATMUL(list): %d meshes returned for %d operands" % (len(res), len(ops)))
+        for k, (X, Y) in enumerate(zip(res, ops)):
+            if type(X) is not type(Y) or Counter(coordsets(X.p, X.t)) != Counter(coordsets(Y.p, Y.t)):
+                f.append("MATMUL(list): the cells of operand %d changed" % k)
+        if any(not np.array_equal(res[0].p, X.p) for X in res) or set(pts(res[0].p)) != set().union(*[set(pts(Y.p)) for Y in ops]):
+            f.append("MATMUL(list): shared points are not the union of the operands' points")
+    except Exception as e:
+        f.append("MATMUL(list): raised %s: %s" % (type(e).__name__, str(e)[:100]))
     return None, None, f
 
 
